@@ -106,8 +106,10 @@ Definition reimport (e : env) (s : kstate) : outcome kstate (list Z) := init_gen
 
 Definition rcode (r : rclass) : Z := match r with ROk => 0 | RErr => 1 | RPanic => 2 end.
 
+(* both verdicts on a probed genesis state: GenesisState.Validate, and the class of InitGenesis, which
+   the implementation runs on every probed state (also those Validate refuses) on an emptied store *)
 Definition probe (e : env) (s : kstate) (g : genesis) : list Z :=
-  if validate_genesis g then [1; rcode (class_of (init_genesis e s g))] else [0; -1].
+  [(if validate_genesis g then 1 else 0); rcode (class_of (init_genesis e s g))].
 
 Definition gstep (e : env) (s : kstate) (o : gop) : outcome kstate (list Z) :=
   match o with
